@@ -81,6 +81,30 @@ def run_ops(eng, ureg, model, W, x, ops, pos, tag, shared, full):
             ureg.define(f"nu = {eng.lit(W.sn)} * m")
             model.late_units["nu"] = W.sn
             model.under_overlay["nu"] = any(c in ("c3", "c4") for c, _p in model.stack)
+        elif kind == "enable_twice":
+            # one call naming the same context twice (by name and by alias where it has one):
+            # two entries are pushed, as for two different contexts
+            c = op[1]
+            ureg.enable_contexts(c, "C1" if c == "c1" else c)
+            model.enable(c, None)
+            model.enable(c, None)
+        elif kind == "call_twice":
+            # contexts given per call are pushed for the call and popped after it -- all of them
+            c = op[1]
+            try:
+                ureg.Quantity(x, "m").to("s", c, "C1" if c == "c1" else c)
+            except DimensionalityError:
+                pass
+        elif kind == "with_twice":
+            c = op[1]
+            with ureg.context(c, "C1" if c == "c1" else c):
+                model.enable(c, None)
+                model.enable(c, None)
+                _probe(eng, ureg, model, x, t + "in", full)
+                if i + 1 < len(ops):
+                    run_ops(eng, ureg, model, W, x, ops[: i + 2], i + 1, tag + "b", shared, full)
+            model.disable(2)
+            i += 1
         elif kind == "enable_bad":
             try:
                 ureg.enable_contexts("bad")
@@ -203,6 +227,10 @@ def _alphabet():
     ops.append(("enable_bad",))
     ops.append(("with_bad",))
     ops.append(("define",))
+    for c in ("c1", "c3"):
+        ops.append(("enable_twice", c))
+        ops.append(("call_twice", c))
+        ops.append(("with_twice", c))
     return ops
 
 
